@@ -538,6 +538,7 @@ func runFile(c *Ctx) {
 		}
 		fileMu.Unlock()
 	}
+	runFileLongLine(c)
 	c.Extra["rule"] = "lease files generated from valid lines in every MAC spelling (colon, dash, upper case, dotted; 6/8/20 bytes) and address spelling, comments, blank lines, CRLF, leading/trailing blanks, duplicates, and one of each malformation (field count, MAC, address, wrong family, indented comment); Setup4/Setup6 with and without autorefresh; in-place rewrites (good and bad) awaited through the plugin's log lines; requests for listed and unlisted clients (DHCPv6: DUID-LL/LLT/EN, relay with EUI-64 peer address or client link-layer option, with and without IA_NA); every fifth history configures both protocols; non-trivial = distinct history with >= 2 ops"
 	_ = bytes.Equal
 }
@@ -552,4 +553,85 @@ func normYi(m *dhcpv4.DHCPv4) *dhcpv4.DHCPv4 {
 	}
 	cp.ClientIPAddr, cp.ServerIPAddr, cp.GatewayIPAddr = cp.ClientIPAddr.To4(), cp.ServerIPAddr.To4(), cp.GatewayIPAddr.To4()
 	return &cp
+}
+
+// runFileLongLine: a lease file with one very long line (a 70 000-byte comment) between entries:
+// the entries after it are served like any other, and a malformed line after it still rejects the
+// file.  (Monitors only: the file is too long to hand to the Coq model as a case.)
+func runFileLongLine(c *Ctx) {
+	fileMu.Lock()
+	defer fileMu.Unlock()
+	wd := workDir()
+	long := "# " + strings.Repeat("x", 70000)
+	for _, v6 := range []bool{false, true} {
+		a1, a2 := "10.44.0.1", "10.44.0.2"
+		if v6 {
+			a1, a2 = "2001:db8:44::1", "2001:db8:44::2"
+		}
+		good := "02:44:00:00:00:01 " + a1 + "\n" + long + "\n02:44:00:00:00:02 " + a2 + "\n"
+		bad := "02:44:00:00:00:01 " + a1 + "\n" + long + "\n02:44:00:00:00:02 not-an-address\n"
+		path := filepath.Join(wd, fmt.Sprintf("leases-long-%d-%v.txt", os.Getpid(), v6))
+		in := map[string]interface{}{"dhcpv6": v6, "file": "entry 1, a comment line of 70002 bytes, entry 2"}
+		os.WriteFile(path, []byte(bad), 0o644)
+		var err error
+		if v6 {
+			_, err = file.Plugin.Setup6(path)
+		} else {
+			_, err = file.Plugin.Setup4(path)
+		}
+		c.Evals++
+		if err == nil {
+			c.vio("C10", "file-acceptance", "a lease file with a malformed line after a very long comment line is accepted", in)
+		}
+		os.WriteFile(path, []byte(good), 0o644)
+		var h4 handler.Handler4
+		var h6 handler.Handler6
+		if v6 {
+			h6, err = file.Plugin.Setup6(path)
+		} else {
+			h4, err = file.Plugin.Setup4(path)
+		}
+		os.Remove(path)
+		c.Evals++
+		if err != nil {
+			c.vio("C10", "file-acceptance", fmt.Sprintf("a well-formed lease file with a very long comment line is rejected: %v", err), in)
+			continue
+		}
+		mac := net.HardwareAddr{2, 0x44, 0, 0, 0, 2}
+		if !v6 {
+			req := mkReq4(mac, "", dhcpv4.MessageTypeDiscover)
+			resp, _ := dhcpv4.NewReplyFromRequest(req)
+			out, _, pan, _ := callH4(h4, req, resp)
+			if pan || out == nil || !out.YourIPAddr.Equal(net.ParseIP(a2)) {
+				c.vio("C10", "mapping-not-served", fmt.Sprintf("the entry after a very long comment line is not served: client %v should get %s", mac, a2), in)
+			}
+		} else {
+			req := mk6req(c, &dhcpv6.DUIDLL{HWType: iana.HWTypeEthernet, LinkLayerAddr: mac}, true, 0, nil, nil)
+			m, _ := req.GetInnerMessage()
+			resp, _ := dhcpv6.NewAdvertiseFromSolicit(m)
+			if resp == nil {
+				rr, _ := dhcpv6.NewReplyFromMessage(m)
+				resp = rr
+			}
+			var out dhcpv6.DHCPv6
+			func() {
+				defer func() { recover() }()
+				out, _ = h6(req, resp)
+			}()
+			found := false
+			if om, ok := out.(*dhcpv6.Message); ok && om != nil {
+				for _, ia := range om.Options.IANA() {
+					for _, ad := range ia.Options.Addresses() {
+						if ad.IPv6Addr.Equal(net.ParseIP(a2)) {
+							found = true
+						}
+					}
+				}
+			}
+			if !found {
+				c.vio("C10", "mapping-not-served", fmt.Sprintf("the entry after a very long comment line is not served: client %v should get %s in its IA_NA", mac, a2), in)
+			}
+		}
+	}
+	c.Count("file:long-line")
 }
